@@ -433,6 +433,7 @@ def run(tier, seed, replay=None):
     lap("model+spec run")
 
     hist, classes, distinct = {}, set(), set()
+    pongs_lost = [0]
     diverged, nevals = [], 0
     seg_groups = {}
 
@@ -542,7 +543,12 @@ def run(tier, seed, replay=None):
                 if fl.count(b" ") >= 2 and fl.split(b" ", 2)[2] not in VERSIONS[:5] and mm.group(4) not in ("400", "505"):
                     viol("req", idx, "unsupported HTTP version did not yield 505/400")
                     continue
-                hl = [x.rstrip(b"\r") for x in re.split(rb"\n", raw.split(b"\r\n\r\n")[0].split(b"\n\n")[0])[1:]]
+                hl = []
+                for x in raw.split(b"\n")[1:]:       # header lines up to the blank line
+                    x = x[:-1] if x.endswith(b"\r") else x
+                    if x == b"":
+                        break
+                    hl.append(x)
                 if any(x and b":" not in x for x in hl) and mm.group(4) == "200":
                     viol("reqhdr", idx, KNOWN_TEXT["http-req-header-nocolon-ignored"], key="http-req-header-nocolon-ignored")
             if mm and kind == "res" and clean_first and mm.group(2) == "0":
@@ -590,8 +596,11 @@ def run(tier, seed, replay=None):
             if bad:
                 viol("ws", idx, (KNOWN_TEXT[key] + " -- " if key else "") + "WebSocket receive path: " + bad, key=key)
                 continue
-            same = irx == mrx and iother == mother and irest == mrest and sub_multiset(ipong, mpong) \
-                and (ipong == mpong or closes)
+            # a pong still queued when the connection goes down (close frame sent first, or the peer's EOF
+            # seen first) is dropped by nng: pongs are compared as a sub-multiset, losses are counted
+            same = irx == mrx and iother == mother and irest == mrest and sub_multiset(ipong, mpong)
+            if same and ipong != mpong:
+                pongs_lost[0] += 1
             if not same:
                 diverged.append((idx, "WsMsgModel"))
             else:
@@ -635,7 +644,8 @@ def run(tier, seed, replay=None):
                             "distinct streams on which both agree and something was decoded/emitted",
                     "samples": [lines[0][:200], lines[len(lines) // 2][:200], lines[-1][:200]],
                     "case_histogram": hist, "outcome_classes": len(classes), "cases": len(cases),
-                    "model_impl_divergences": len(diverged), "leak_reports": leak_only})
+                    "model_impl_divergences": len(diverged), "leak_reports": leak_only,
+                    "cases_with_pongs_dropped_at_connection_end": pongs_lost[0]})
     rep.assumptions += ["http_rd_buf's 8 KiB policy (URI too long / headers too large) is not modelled",
                         "nni_url_canonify_uri is modelled on unreserved-character paths only (others: 'head unmodelled', skipped)",
                         "WebSocket back-pressure (no receiver waiting) not modelled: the harness always has a receive posted",
